@@ -771,3 +771,21 @@ package table
 //@   loop 0 step len(pathList) == header(len(pathList)) + (called(Clone) ? 1 : 0)
 //@   loop 0 step p.IsStale() ==> called(Clone)
 //@   at-return requires !ret0 && __iter + 1 >= len(d.knownPathList)
+
+// from C17 "every ... VRF change triggers exactly the ... withdrawals needed": deleting a VRF hands back the
+// withdrawals of its routes in every configuration - the route-target-constraint table is only consulted when the
+// global RIB has one (a RIB configured without the rtc family has none)
+//@ props C17
+//@ func (*TableManager).DeleteVrf
+//@   claims at-call
+//@   at-call ^rtcTable.deleteRTCPathsByVrf( requires arg0 != nil
+// the plain (VRF-local) form of a VPN route, as specification vocabulary: a function of the route (not verified here;
+// that it builds a new path and leaves its operand alone is assumed)
+//@ func (*Path).ToLocal
+//@   pure
+//@   spec-only
+// replace-peer-as: works on a copy when it changes anything (assumed: the route it is given and every other existing
+// object are left as they were; not verified)
+//@ func (*Path).ReplaceAS
+//@   pure
+//@   spec-only
